@@ -34,6 +34,38 @@ pub fn kind_num(k: std::io::ErrorKind) -> u8 {
         TimedOut => 4,
         ConnectionReset => 5,
         Other => 6,
+        NotFound => 7,
+        PermissionDenied => 8,
+        ConnectionRefused => 9,
+        HostUnreachable => 10,
+        NetworkUnreachable => 11,
+        ConnectionAborted => 12,
+        NotConnected => 13,
+        AddrInUse => 14,
+        AddrNotAvailable => 15,
+        NetworkDown => 16,
+        BrokenPipe => 17,
+        AlreadyExists => 18,
+        NotADirectory => 19,
+        IsADirectory => 20,
+        DirectoryNotEmpty => 21,
+        ReadOnlyFilesystem => 22,
+        StaleNetworkFileHandle => 23,
+        InvalidInput => 24,
+        WriteZero => 25,
+        StorageFull => 26,
+        NotSeekable => 27,
+        FileTooLarge => 28,
+        ResourceBusy => 29,
+        ExecutableFileBusy => 30,
+        Deadlock => 31,
+        TooManyLinks => 32,
+        ArgumentListTooLong => 33,
+        Unsupported => 34,
+        OutOfMemory => 35,
+        QuotaExceeded => 36,
+        CrossesDevices => 37,
+        InvalidFilename => 38,
         _ => 99,
     }
 }
@@ -46,6 +78,38 @@ pub fn num_kind(k: u8) -> std::io::ErrorKind {
         3 => WouldBlock,
         4 => TimedOut,
         5 => ConnectionReset,
+        7 => NotFound,
+        8 => PermissionDenied,
+        9 => ConnectionRefused,
+        10 => HostUnreachable,
+        11 => NetworkUnreachable,
+        12 => ConnectionAborted,
+        13 => NotConnected,
+        14 => AddrInUse,
+        15 => AddrNotAvailable,
+        16 => NetworkDown,
+        17 => BrokenPipe,
+        18 => AlreadyExists,
+        19 => NotADirectory,
+        20 => IsADirectory,
+        21 => DirectoryNotEmpty,
+        22 => ReadOnlyFilesystem,
+        23 => StaleNetworkFileHandle,
+        24 => InvalidInput,
+        25 => WriteZero,
+        26 => StorageFull,
+        27 => NotSeekable,
+        28 => FileTooLarge,
+        29 => ResourceBusy,
+        30 => ExecutableFileBusy,
+        31 => Deadlock,
+        32 => TooManyLinks,
+        33 => ArgumentListTooLong,
+        34 => Unsupported,
+        35 => OutOfMemory,
+        36 => QuotaExceeded,
+        37 => CrossesDevices,
+        38 => InvalidFilename,
         _ => Other,
     }
 }
